@@ -46,54 +46,48 @@ impl parsing::Span<'_> {
         Self::build_duration(self.sign, second_value, nanosecond_value, unit)
     }
 
-    fn get_second_value(&self) -> Result<i64> {
-        Ok(get_optional_digit_value(self.week)? * 7 * 24 * 60 * 60
-            + get_optional_digit_value(self.day)? * 24 * 60 * 60
-            + get_optional_digit_value(self.hour)? * 60 * 60
-            + get_optional_digit_value(self.minute)? * 60
-            + get_optional_digit_value(self.second)?)
+    fn get_second_value(&self) -> Result<i128> {
+        // each component fits into an i64, the sum cannot overflow an i128
+        Ok(i128::from(get_optional_digit_value(self.week)?) * 7 * 24 * 60 * 60
+            + i128::from(get_optional_digit_value(self.day)?) * 24 * 60 * 60
+            + i128::from(get_optional_digit_value(self.hour)?) * 60 * 60
+            + i128::from(get_optional_digit_value(self.minute)?) * 60
+            + i128::from(get_optional_digit_value(self.second)?))
     }
 
-    fn get_nanosecond_value(&self) -> Result<i64> {
+    fn get_nanosecond_value(&self) -> Result<i128> {
         let Some(subsecond) = self.subsecond else {
             return Ok(0);
         };
+        // digits finer than nanoseconds are dropped
+        let subsecond = &subsecond[..std::cmp::min(subsecond.len(), 9)];
         let subsecond_val: i64 = subsecond.parse()?;
         let subsecond_len = u32::try_from(subsecond.len())?;
 
-        if subsecond_len <= 9 {
-            Ok(subsecond_val * 10_i64.pow(9 - subsecond_len))
-        } else {
-            Ok(subsecond_val / 10_i64.pow(subsecond_len - 9))
-        }
+        Ok(i128::from(subsecond_val) * 10_i128.pow(9 - subsecond_len))
     }
 
     fn build_duration(
         sign: Option<char>,
-        second_value: i64,
-        nanosecond_value: i64,
+        second_value: i128,
+        nanosecond_value: i128,
         unit: TimeUnit,
     ) -> Result<i64> {
         let unsigned_duration = match unit {
             TimeUnit::Second => second_value,
-            TimeUnit::Millisecond => match second_value.checked_mul(1_000_i64) {
-                Some(res) => res + nanosecond_value / 1_000_000,
-                None => fail!("Cannot represent {second_value} with Microsecond resolution"),
-            },
-            TimeUnit::Microsecond => match second_value.checked_mul(1_000_000_i64) {
-                Some(res) => res + nanosecond_value / 1_000,
-                None => fail!("Cannot represent {second_value} with Millisecond resolution"),
-            },
-            TimeUnit::Nanosecond => match second_value.checked_mul(1_000_000_000_i64) {
-                Some(res) => res + nanosecond_value,
-                None => fail!("Cannot represent {second_value} with Nanosecond resolution"),
-            },
+            TimeUnit::Millisecond => second_value * 1_000 + nanosecond_value / 1_000_000,
+            TimeUnit::Microsecond => second_value * 1_000_000 + nanosecond_value / 1_000,
+            TimeUnit::Nanosecond => second_value * 1_000_000_000 + nanosecond_value,
+        };
+        let duration = if sign == Some('-') {
+            -unsigned_duration
+        } else {
+            unsigned_duration
         };
 
-        if sign == Some('-') {
-            Ok(-unsigned_duration)
-        } else {
-            Ok(unsigned_duration)
+        match i64::try_from(duration) {
+            Ok(duration) => Ok(duration),
+            Err(_) => fail!("Cannot represent the span as a 64 bit duration with unit {unit}"),
         }
     }
 }
